@@ -34,6 +34,12 @@ class OptInterp:
         self.watch = set(watch)
         self.paths = []
         self._passed = []
+        self.forced = {}          # local -> variant index (the discriminant of what the local is or points to)
+        self.records = []         # per returning path: {"reads": {field atom: n}, "calls": [callee], "ret_src": set, "ret": value}
+        self._reads = {}
+        self._calls = []
+        self.src = {}             # provenance labels: pkey -> frozenset(labels)
+        self.labels = {}          # callee or instruction id -> label for the result of that call
 
     def val(self, env, op):
         if op.place is not None:
@@ -49,6 +55,36 @@ class OptInterp:
             if op.const.get("ty") == "bool" and "val" in op.const:
                 return "T" if op.const["val"] == "1" else "F"
         return "?"
+
+    def srcs(self, env, op):
+        if op.place is None:
+            return frozenset()
+        k = pkey(op.place)
+        se = env.get("__src__", {})
+        while True:
+            if k in se:
+                return se[k]
+            if not k[1]:
+                return frozenset()
+            k = (k[0], k[1][:-1])
+
+    def set_src(self, env, place, labels):
+        se = dict(env.get("__src__", {}))
+        k = pkey(place)
+        for kk in [x for x in se if x[0] == k[0] and x[1][:len(k[1])] == k[1]]:
+            del se[kk]
+        se[k] = frozenset(labels)
+        env["__src__"] = se
+
+    def note_reads(self, ins):
+        ops = list(ins.ops) + list(ins.args)
+        for op in ops:
+            if op.place is not None:
+                for (adt, v, n, i) in op.place.fields():
+                    if adt and n is not None:
+                        a = "field:%s.%s" % (adt, n)
+                        self._reads = dict(self._reads)
+                        self._reads[a] = self._reads.get(a, 0) + 1
 
     def assign(self, env, place, v, whole_from=None):
         k = pkey(place)
@@ -135,8 +171,33 @@ class OptInterp:
             return "?"
         return "?"
 
+    def call_sources(self, env, ins):
+        """provenance labels of a call result (Option combinators keep the labels of the value they forward)"""
+        c = ins.callee or ""
+        if ins.id in self.labels:
+            return frozenset([self.labels[ins.id]])
+        if c in self.labels:
+            return frozenset([self.labels[c]])
+        a = [self.val(env, o) for o in ins.args]
+        sa = [self.srcs(env, o) for o in ins.args]
+        name = c.split("::")[-1]
+        if c.startswith(OPT + "::"):
+            if name in ("or",):
+                return sa[0] if a[0] == "S" else (sa[1] if a[0] == "N" else sa[0] | sa[1])
+            if name in ("unwrap_or",):
+                return sa[0] if a[0] == "S" else (sa[1] if a[0] == "N" else sa[0] | sa[1])
+            if name in ("as_ref", "as_mut", "copied", "cloned", "unwrap", "expect", "take"):
+                return sa[0]
+        out = frozenset()
+        for x in sa:
+            out |= x
+        return out
+
     def run(self):
-        self.explore(0, 0, {}, {})
+        env = {}
+        for l, vi in self.forced.items():
+            env[(l, ())] = ("D", vi)
+        self.explore(0, 0, env, {})
         return self.results
 
     def explore(self, bb, idx, env, discr_of):
@@ -148,8 +209,18 @@ class OptInterp:
                 return
             ins = body.blocks[bb][idx]
             k = ins.kind
+            if k in ("assign", "call"):
+                self.note_reads(ins)
             if k == "assign":
                 rk = ins.rv_kind()
+                # provenance labels flow through plain data operations
+                lab = frozenset()
+                for o_ in ins.ops:
+                    lab |= self.srcs(env, o_)
+                rp_ = ins.ref_place()
+                if rp_ is not None:
+                    from .facts import Operand as _Op
+                    lab |= self.srcs(env, _Op({"k": "copy", "pl": {"l": rp_.local, "p": rp_.proj}}))
                 if rk == "use":
                     o = ins.ops[0]
                     if o.place is not None:
@@ -185,6 +256,25 @@ class OptInterp:
                     self.assign(env, ins.place, "?")
                 else:
                     self.assign(env, ins.place, "?")
+                if rk == "discr":
+                    pv = env.get(pkey(ins.discr_place()))
+                    if isinstance(pv, tuple) and pv[0] == "D":
+                        env[pkey(ins.place)] = pv
+                self.set_src(env, ins.place, lab)
+                if rk == "agg" and ins.rv.get("ak") in ("tuple", "closure"):
+                    se = dict(env.get("__src__", {}))
+                    base = pkey(ins.place)
+                    for i_, o_ in enumerate(ins.ops):
+                        se[(base[0], base[1] + (i_,))] = self.srcs(env, o_)
+                    env["__src__"] = se
+                elif rk == "use" and ins.ops and ins.ops[0].place is not None:
+                    # moving/copying a whole value keeps the per-field labels
+                    se = dict(env.get("__src__", {}))
+                    sk, dk = pkey(ins.ops[0].place), pkey(ins.place)
+                    for kk, vv in list(se.items()):
+                        if kk[0] == sk[0] and kk[1][:len(sk[1])] == sk[1] and kk != sk:
+                            se[(dk[0], dk[1] + kk[1][len(sk[1]):])] = vv
+                    env["__src__"] = se
                 idx += 1
                 continue
             if k == "setdiscr":
@@ -194,10 +284,13 @@ class OptInterp:
                 if ins.id in self.watch:
                     self._passed = self._passed + [ins.id]
                 v = self.call_model(env, ins)
+                self._calls = self._calls + [ins.callee or "?"]
                 if v == "!":
                     return  # panics on this path
                 if ins.dest is not None:
                     self.assign(env, ins.dest, v)
+                    lab = self.call_sources(env, ins)
+                    self.set_src(env, ins.dest, lab)
                 if ins.target is None:
                     return  # diverges
                 bb, idx = ins.target, 0
@@ -208,12 +301,20 @@ class OptInterp:
             if k == "return":
                 self.results.append(env.get((0, ()), "?"))
                 self.paths.append(list(self._passed))
+                self.records.append({"reads": dict(self._reads), "calls": list(self._calls), "ret": env.get((0, ()), "?"),
+                                     "ret_src": set(env.get("__src__", {}).get((0, ()), frozenset()))})
                 return
             if k == "switch":
                 o = ins.ops[0]
                 src = discr_of.get(o.place.local) if o.place is not None and o.place.is_local else None
                 tmap = dict(ins.targets)
                 saved = list(self._passed)
+                saved_reads, saved_calls = dict(self._reads), list(self._calls)
+                dv = self.val(env, o) if o.place is not None else "?"
+                if isinstance(dv, tuple) and dv[0] == "D":
+                    t = tmap.get(dv[1], ins.otherwise)
+                    self.explore(t, 0, dict(env), discr_of)
+                    return
 
                 def dead(t):
                     return self.body.blocks[t][-1].kind == "unreachable" and len(self.body.blocks[t]) == 1
@@ -239,6 +340,7 @@ class OptInterp:
                             e2 = dict(env)
                             e2[src] = want
                             self._passed = list(saved)
+                            self._reads, self._calls = dict(saved_reads), list(saved_calls)
                             self.explore(t, 0, e2, discr_of)
                         return
                 bv = self.val(env, o) if o.place is not None else "?"
@@ -246,6 +348,7 @@ class OptInterp:
                     t = tmap.get(0, ins.otherwise) if bv == "F" else ins.otherwise
                     if not dead(t):
                         self._passed = list(saved)
+                        self._reads, self._calls = dict(saved_reads), list(saved_calls)
                         self.explore(t, 0, dict(env), discr_of)
                     return
                 ts = [b for _, b in ins.targets] + [ins.otherwise]
@@ -260,6 +363,7 @@ class OptInterp:
                     if src is not None and t != ins.otherwise:
                         pass
                     self._passed = list(saved)
+                    self._reads, self._calls = dict(saved_reads), list(saved_calls)
                     self.explore(t, 0, e2, discr_of)
                 return
             if k == "unreachable":
@@ -276,3 +380,23 @@ def presence_table(body, src_a, src_b):
             it = OptInterp(body, {src_a: va, src_b: vb})
             out[(va, vb)] = sorted(set(it.run()))
     return out
+
+
+def presence_sources(body, src_a, src_b):
+    """for the four presence cases: list of (result tag, provenance labels of the result) over all returning paths"""
+    out = {}
+    for va in ("S", "N"):
+        for vb in ("S", "N"):
+            it = OptInterp(body, {src_a: va, src_b: vb})
+            it.labels = {src_a: "A", src_b: "B"}
+            it.run()
+            out[(va, vb)] = sorted({(r["ret"] if isinstance(r["ret"], str) else "?", tuple(sorted(r["ret_src"]))) for r in it.records})
+    return out
+
+
+def enum_cases(body, forced):
+    """explore the body with the discriminants of the given locals fixed; returns the per-path records"""
+    it = OptInterp(body, {})
+    it.forced = dict(forced)
+    it.run()
+    return it.records
